@@ -361,6 +361,7 @@ def parseEffect (line : String) : Option Effect :=
   | ["E", "transfer", a, b, n] => do pure (.transfer (unDash a) (unDash b) (← parseNat n))
   | ["E", "slash", r, p, n] => do pure (.slash (← reqIdOfHex r) (unDash p) (← parseNat n))
   | ["E", "ev", "new_batch_request", c, n] => do pure (.evReqs (← ctxIdOfHex c) (← parseNat n))
+  | ["E", "ev", "new_batch_request", c, _, "misordered"] => do pure (.ev "new_batch_request_misordered" (← ctxIdOfHex c))
   | ["E", "ev", k, c] => do pure (.ev k (← ctxIdOfHex c))
   | ["E", "respcb", c, outs, f] => do
     pure (.respcb (← ctxIdOfHex c) (← (listOf outs).mapM outOf) (← boolOf f))
